@@ -4,6 +4,14 @@ realise(desc, ids): descriptor -> a fresh concrete value (fresh containers; one 
                     identity of `ids`, a new `ids` gives new NaN objects: a structural copy).
 project(value, ids): concrete value -> descriptor (the abstraction function).
 Rendering and projecting only - nothing here decides anything.
+
+Realisation variants (concrete descriptors of spec/Eq.tla, Norm gives the value):
+  ["mo", [perm, kvs]] / ["Mo", [cls, perm, kvs]]   a dict whose keys were inserted in the order kvs[perm[0]-1], ...
+                    (kvs in sorted key order); project() reads the insertion order back from the object
+  ["v", [dtype, buf, bufcells, offset, shape, strides]]   an ndarray that is a view into buffer `buf` of the
+                    Heap of `ids` (all values realised with one Heap share its buffers: aliasing between
+                    operands); project() reads buffer, offset and strides back from the data pointer
+  ["Sv", [index, view]] / ["Fv", [index, columns, view]]   a Series / DataFrame built on a view, copy=False
 """
 import datetime, math
 import numpy as np
@@ -12,15 +20,46 @@ import pandas as pd
 LIMIT = 2 ** 31 - 1
 NP_TYPES = {'int64': np.int64, 'int32': np.int32, 'float64': np.float64, 'float32': np.float32,
             'bool_': np.bool_, 'str_': np.str_}
-LEAF_TAGS = ('n', 'b', 'i', 'f', 'nan', 'inf', 's', 'd', 'ts', 'd64', 'date', 'np')
+LEAF_TAGS = ('n', 'b', 'i', 'f', 'nan', 'inf', 's', 'd', 'ts', 'd64', 'date', 'np', 'nat')
+
+
+class Heap(object):
+    """the buffers of one world: buffer number -> the 1-d ndarray that owns the cells (kept alive).
+    Values realised with the same Heap share these buffers; another Heap is other memory."""
+    def __init__(self):
+        self.by_id = {}
+        self.ids = None           # the NaN objects held by object-dtype buffers
+
+    def buffer(self, k, dt, cells):
+        if self.ids is None:
+            self.ids = Ids(self)
+        if k not in self.by_id:
+            self.by_id[k] = (_ndarray(dt, (len(cells),), cells, self.ids), dt, cells)
+        b, dt0, cells0 = self.by_id[k]
+        if dt0 != dt or cells0 != cells:
+            raise ValueError('buffer %r described in two ways: %r / %r' % (k, (dt0, cells0), (dt, cells)))
+        return b
+
+    def locate(self, a):
+        """(buffer number, buffer) of the registered buffer the data of `a` lives in, or None"""
+        if a.size == 0:
+            return None
+        ptr = a.__array_interface__['data'][0]
+        for k, (b, _, _) in self.by_id.items():
+            lo = b.__array_interface__['data'][0]
+            if a.dtype == b.dtype and lo <= ptr < lo + b.nbytes:
+                return k, b
+        return None
 
 
 class Ids(object):
-    """NaN *objects* of one realised value: abstract identity <-> object (kept alive)."""
-    def __init__(self):
+    """NaN *objects* of one realised value: abstract identity <-> object (kept alive); and the Heap
+    its views live in."""
+    def __init__(self, heap=None):
         self.by_id = {}
         self.by_obj = {}
         self.fresh = 500
+        self.heap = heap if heap is not None else Heap()
 
     def obj(self, k, make):
         if k not in self.by_id:
@@ -79,9 +118,31 @@ def _ndarray(dt, shape, cells, ids):
     return np.array(vals, dtype=dt).reshape(shape)
 
 
+def _view(p, ids):
+    dt, buf, bc, off, shape, strides = p
+    b = ids.heap.buffer(buf, dt, bc)
+    return np.lib.stride_tricks.as_strided(b[off:], shape=tuple(shape), strides=tuple(st * b.itemsize for st in strides))
+
+
+def _ordered(perm, kvs, ids):
+    out = {}
+    for i in perm:
+        out[kvs[i - 1][0]] = realise(kvs[i - 1][1], ids)
+    return out
+
+
 def realise(d, ids):
     k, p = d[0], d[1]
     if k == 'n': return None
+    if k == 'nat': return pd.NaT
+    if k == 'mo': return _ordered(p[0], p[1], ids)
+    if k == 'Mo':
+        return _subclass(p[0])(_ordered(p[1], p[2], ids))
+    if k == 'v': return _view(p, ids)
+    if k == 'Sv':
+        return pd.Series(_view(p[1][1], ids), index=_index(p[0], ids), copy=False)
+    if k == 'Fv':
+        return pd.DataFrame(_view(p[2][1], ids), index=_index(p[0], ids), columns=_index(p[1], ids), copy=False)
     if k == 'b': return bool(p)
     if k == 'i': return int(p)
     if k == 'f': return p[0] / p[1]
@@ -135,6 +196,8 @@ def project_leaf(v, ids, boxed=True):
     """boxed: v is an object held by a Python container (its NaN has an identity)"""
     if v is None:
         return ['n', 0]
+    if v is pd.NaT:
+        return ['nat', 0]
     if isinstance(v, bool):
         return ['b', int(v)]
     if isinstance(v, np.bool_):
@@ -192,6 +255,24 @@ def _index_leaves(ix, ids):
     return [project_leaf(v if not isinstance(v, (np.integer, np.floating)) else v.item(), ids, boxed=False) for v in ix]
 
 
+def _project_view(a, ids):
+    """the view descriptor of an ndarray whose cells live in a buffer of the Heap, else None"""
+    hit = ids.heap.locate(a)
+    if hit is None:
+        return None
+    k, b = hit
+    off = (a.__array_interface__['data'][0] - b.__array_interface__['data'][0]) // b.itemsize
+    return ['v', [_dtype(a.dtype), k, _cells(b, ids.heap.ids), int(off), [int(n) for n in a.shape], [int(st // b.itemsize) for st in a.strides]]]
+
+
+def _project_dict(v, ids):
+    """kvs in sorted key order, and the insertion order as a permutation when it is another one"""
+    ins = [str(k) for k in dict.keys(v)]
+    kvs = [[str(k), project(x, ids)] for k, x in sorted(dict.items(v))]
+    keys = [k for k, _ in kvs]
+    return kvs, (None if ins == keys else [keys.index(k) + 1 for k in ins])
+
+
 def project(v, ids):
     leaf = project_leaf(v, ids)
     if leaf is not None:
@@ -201,11 +282,18 @@ def project(v, ids):
     if type(v) is list:
         return ['l', [project(x, ids) for x in v]]
     if type(v) is dict:
-        return ['m', [[str(k), project(x, ids)] for k, x in sorted(dict.items(v))]]
+        kvs, perm = _project_dict(v, ids)
+        return ['m', kvs] if perm is None else ['mo', [perm, kvs]]
     if isinstance(v, dict):
-        return ['M', [type(v).__name__, [[str(k), project(x, ids)] for k, x in sorted(dict.items(v))]]]
+        kvs, perm = _project_dict(v, ids)
+        return ['M', [type(v).__name__, kvs]] if perm is None else ['Mo', [type(v).__name__, perm, kvs]]
     if isinstance(v, np.ndarray):
-        return ['a', [_dtype(v.dtype), [int(n) for n in v.shape], _cells(v, ids)]]
+        return _project_view(v, ids) or ['a', [_dtype(v.dtype), [int(n) for n in v.shape], _cells(v, ids)]]
+    if isinstance(v, (pd.Series, pd.DataFrame)) and isinstance(v.values, np.ndarray) and _project_view(v.values, ids) is not None:
+        w = _project_view(v.values, ids)
+        if isinstance(v, pd.Series):
+            return ['Sv', [_index_leaves(v.index, ids), w]]
+        return ['Fv', [_index_leaves(v.index, ids), _index_leaves(v.columns, ids), w]]
     if isinstance(v, pd.Series):
         return ['S', [_dtype(v.dtype), _index_leaves(v.index, ids), _cells(np.asarray(v), ids)]]
     if isinstance(v, pd.DataFrame):
@@ -219,14 +307,49 @@ def is_leaf(d):
     return d[0] in LEAF_TAGS
 
 
+def view_cells(w):
+    """the cells a view descriptor addresses, row-major (for reports and generators only - verdicts use Eq!ViewCells)"""
+    dt, buf, bc, off, shape, strides = w[1]
+    return [bc[off + sum(i * st for i, st in zip(idx, strides))] for idx in np.ndindex(*shape)]
+
+
 def items(d):
     k, p = d[0], d[1]
     if k in ('t', 'l'): return p
     if k == 'm': return [x for _, x in p]
     if k == 'M': return [x for _, x in p[1]]
+    if k == 'mo': return [x for _, x in p[1]]
+    if k == 'Mo': return [x for _, x in p[2]]
     if k in ('a', 'S'): return p[2]
     if k == 'F': return p[3]
+    if k == 'v': return view_cells(d)
+    if k == 'Sv': return view_cells(p[1])
+    if k == 'Fv': return view_cells(p[2])
     return []
+
+
+def dmap(d, nan=None, buf=None):
+    """the descriptor with every NaN identity k replaced by nan(k) and every buffer number b by buf(b)"""
+    k, p = d[0], d[1]
+    f = lambda x: dmap(x, nan, buf)
+    kv = lambda kvs: [[kk, f(x)] for kk, x in kvs]
+    if k == 'nan': return [k, nan(p) if nan else p]
+    if k == 'np': return [k, [p[0], f(p[1])]]
+    if k in ('t', 'l'): return [k, [f(x) for x in p]]
+    if k == 'm': return [k, kv(p)]
+    if k == 'M': return [k, [p[0], kv(p[1])]]
+    if k == 'mo': return [k, [p[0], kv(p[1])]]
+    if k == 'Mo': return [k, [p[0], p[1], kv(p[2])]]
+    if k in ('a', 'S'): return [k, [p[0], p[1], [f(x) for x in p[2]]]]
+    if k == 'F': return [k, [p[0], p[1], p[2], [f(x) for x in p[3]]]]
+    if k == 'v': return [k, [p[0], buf(p[1]) if buf else p[1], [f(x) for x in p[2]], p[3], p[4], p[5]]]
+    if k == 'Sv': return [k, [p[0], f(p[1])]]
+    if k == 'Fv': return [k, [p[0], p[1], f(p[2])]]
+    return d
+
+
+def has_tag(d, tags):
+    return any(n[0] in tags for n in walk(d))
 
 
 def coarse(d):
@@ -237,14 +360,15 @@ def coarse(d):
         return 'np.' + p[0] + (':nan' if p[1][0] == 'nan' else '')
     if k in LEAF_TAGS:
         return {'n': 'None', 'b': 'bool', 'i': 'int', 'f': 'float', 'nan': 'float:nan', 'inf': 'float:inf', 's': 'str',
-                'd': 'datetime', 'ts': 'Timestamp', 'd64': 'np.datetime64', 'date': 'date'}[k]
+                'd': 'datetime', 'ts': 'Timestamp', 'd64': 'np.datetime64', 'date': 'date', 'nat': 'NaT'}[k]
     if k == 't': return 'tuple'
     if k == 'l': return 'list'
-    if k == 'm': return 'dict'
-    if k == 'M': return p[0]
+    if k in ('m', 'mo'): return 'dict'
+    if k in ('M', 'Mo'): return p[0]
     if k == 'a': return 'array%dd' % len(p[1])
-    if k == 'S': return 'Series'
-    if k == 'F': return 'DataFrame'
+    if k == 'v': return 'array%dd' % len(p[4])
+    if k in ('S', 'Sv'): return 'Series'
+    if k in ('F', 'Fv'): return 'DataFrame'
     return k
 
 
@@ -257,8 +381,14 @@ def fine(d):
     inner = ','.join(sorted({coarse(x) for x in its}))
     if k == 'a':
         return 'array%dd:%s:%s[%s]' % (len(p[1]), p[0], 'x'.join(str(n) for n in p[1]), inner if p[0] == 'object' else '')
+    if k == 'v':
+        return 'array%dd:%s:%s[%s]:view' % (len(p[4]), p[0], 'x'.join(str(n) for n in p[4]), inner if p[0] == 'object' else '')
     if k in ('S', 'F'):
         return '%s:%s%s' % (coarse(d), p[0], ':empty' if not its else '')
+    if k in ('Sv', 'Fv'):
+        return '%s:%s:view' % (coarse(d), p[-1][1][0])
+    if k in ('mo', 'Mo'):
+        return '%s[%s]:reordered' % (coarse(d), inner)
     return '%s[%s]' % (coarse(d), inner)
 
 
@@ -270,7 +400,8 @@ def klass(d):
         return 'npscalar'
     if k in LEAF_TAGS:
         return 'scalar'
-    return {'t': 'tuple', 'l': 'list', 'm': 'dict', 'M': 'dictsub', 'S': 'Series', 'F': 'DataFrame',
+    return {'t': 'tuple', 'l': 'list', 'm': 'dict', 'M': 'dictsub', 'mo': 'dict', 'Mo': 'dictsub', 'S': 'Series', 'F': 'DataFrame',
+            'Sv': 'Series', 'Fv': 'DataFrame', 'v': 'array0d' if k == 'v' and len(d[1][4]) == 0 else 'array',
             'a': 'array0d' if k == 'a' and len(d[1][1]) == 0 else 'array'}[k]
 
 
@@ -285,13 +416,19 @@ def walk(d):
 
 def features(descs):
     """ingredients anywhere inside the values that single out a defect family"""
-    f = {'nan32': False, 'zerod': False, 'empty': False}
+    f = {'nan32': False, 'zerod': False, 'empty': False, 'reordered': False, 'view': False, 'nat': False}
     for d in descs:
         for n in walk(d):
             if n[0] == 'np' and n[1][0] == 'float32' and n[1][1][0] == 'nan':
                 f['nan32'] = True
-            if n[0] == 'a' and len(n[1][1]) == 0:
+            if (n[0] == 'a' and len(n[1][1]) == 0) or (n[0] == 'v' and len(n[1][4]) == 0):
                 f['zerod'] = True
             if n[0] in ('a', 'S', 'F') and len(items(n)) == 0:
                 f['empty'] = True
+            if n[0] in ('mo', 'Mo'):
+                f['reordered'] = True
+            if n[0] in ('v', 'Sv', 'Fv'):
+                f['view'] = True
+            if n[0] == 'nat':
+                f['nat'] = True
     return f
